@@ -221,3 +221,33 @@ def if_branches(if_node):
             if isinstance(lst, list) and if_node in lst:
                 orelse = lst[lst.index(if_node) + 1:]
     return if_node.body, orelse
+
+
+def bound_args(repo, fi, call):
+    """{parameter name: argument expression} for a call to a function of the package (module-level, imported, or self.method),
+    independent of keyword / positional spelling; defaults are filled in.  None when the callee cannot be resolved."""
+    from .inline import _bind
+    from .model import FuncInfo
+    f = call.func
+    tgt, is_method = None, False
+    if isinstance(f, ast.Name):
+        tgt = repo.resolve_symbol(fi.module, f.id)
+    elif isinstance(f, ast.Attribute) and isinstance(f.value, ast.Name) and f.value.id == "self" and fi.cls is not None:
+        tgt, is_method = fi.cls.methods.get(f.attr), True
+    elif isinstance(f, ast.Attribute) and isinstance(f.value, ast.Name):
+        imp = fi.module.imports.get(f.value.id)
+        if imp and imp[1] is None and imp[0] in repo.modules:
+            tgt = repo.modules[imp[0]].funcs.get(f.attr)
+        elif imp and imp[1] and imp[0] in repo.modules:
+            # from package import module as name
+            sub = repo.modules.get(f"{imp[0]}.{imp[1]}")
+            if sub is not None:
+                tgt = sub.funcs.get(f.attr)
+    if not isinstance(tgt, FuncInfo):
+        return None
+    if tgt.cls is not None and not is_method:
+        is_method = True
+    b = _bind(tgt.node, call, is_method)
+    if b is not None and is_method:
+        b.pop("self", None)
+    return b
